@@ -103,6 +103,9 @@ def run(module, cfg, workers=8, simulate=None, depth=None, seed=None, env=None, 
         r.cex = p.stdout[i:(j if j > 0 else i + 20000)][:20000]
     else:
         r.cex = ""
+    # TLC's workers print in no fixed order: a canonical order keeps everything derived from positions (samples, rotations of options) reproducible
+    if workers > 1 and len(r.printed) > 1:
+        r.printed.sort(key=lambda v: json.dumps(v, sort_keys=True))
     if simulate and r.generated == 0:
         m = re.search(r"(\d+) states checked", p.stdout)
         if m:
